@@ -5615,6 +5615,14 @@ evhttp_uri_join(const struct evhttp_uri *uri, char *buf, size_t limit)
 				return NULL;
 		}
 	}
+#ifndef _WIN32
+	else if ((uri->flags & EVHTTP_URI_UNIX_SOCKET) && uri->port >= 0 &&
+	    !strcmp(uri->host, "unix")) {
+		/* "//unix:80" would open a socket path when it is parsed with
+		 * EVHTTP_URI_UNIX_SOCKET again, not name the host "unix" */
+		return NULL;
+	}
+#endif
 
 	tmp = evbuffer_new();
 	if (!tmp)
